@@ -565,11 +565,17 @@ Fixpoint wfb (w : bool) (e : expr) {struct e} : bool :=
       end
   end.
 
+(** would the head [<name>] of a plain definition read as a specialisation [<n@shell>]?
+    (it does when a non-empty part without [@] is followed by [@] and a non-empty rest) *)
+Definition spec_like (name : string) : bool :=
+  let (a, b) := span_while (fun c => negb (Ascii.eqb c AT)) name in
+  negb (is_empty a) && match b with String _ sh => negb (is_empty sh) | EmptyString => false end.
+
 Definition wf_stmt (s : statement) : bool :=
   match s with
   | CallVariant name _ e => wf_lit name && wfb false e
   | NontermDef name _ None rhs =>
-      wf_nt name && all_chars (fun c => negb (Ascii.eqb c AT)) name && wfb false rhs
+      wf_nt name && negb (spec_like name) && wfb false rhs
   | NontermDef name _ (Some (sh, _)) rhs =>
       wf_nt name && all_chars (fun c => negb (Ascii.eqb c AT)) name && wf_nt sh && wfb false rhs
   end.
